@@ -681,28 +681,7 @@ def note_perf_limit(ctx, rule='SHIFT/note-limit'):
 
 
 def _inline_nested(fi, expr, depth=3):
-  """expr with calls of fi's nested one-return helpers replaced by the returned expression (arguments and defaults substituted)."""
-  from sa import pathval
-
-  class T(ast.NodeTransformer):
-    def visit_Call(self, node):
-      self.generic_visit(node)
-      g = fi.nested.get(node.func.id) if isinstance(node.func, ast.Name) else None
-      if g is None or depth <= 0:
-        return node
-      body = [b for b in g.node.body if not (isinstance(b, ast.Expr) and isinstance(b.value, ast.Constant))]
-      if len(body) != 1 or not isinstance(body[0], ast.Return) or body[0].value is None or any(isinstance(a, ast.Starred) for a in node.args) or any(k.arg is None for k in node.keywords):
-        return node
-      a = g.node.args
-      pos = a.posonlyargs + a.args
-      env = dict((q.arg, d) for q, d in zip(pos[len(pos) - len(a.defaults):], a.defaults))
-      env.update((q.arg, x) for q, x in zip(pos, node.args))
-      env.update((k.arg, k.value) for k in node.keywords)
-      if any(q.arg not in env for q in pos):
-        return node
-      return pathval.subst(body[0].value, env)
-  import copy
-  return T().visit(copy.deepcopy(expr))
+  return U.inline_nested(fi, expr, depth)
 
 
 def metric_limit(ctx, rule='SHIFT/metric-limit'):
